@@ -71,3 +71,37 @@ Definition dial_check (sb : sbuilder) : res unit :=
   | SBRandom specs => check_all specs
   | _ => Ok tt
   end.
+
+(* ---------- uPacketPacker.planInitialFlight + packPlannedInitial (flight builders) ---------- *)
+Inductive fbuilder :=
+| FBFrames (dgs : list (list frame))                 (* QUICFlightFrames *)
+| FBRandom (dgs : list (list (Z * Z) * rf)).         (* QUICRandomFlightFrames *)
+
+Definition build_flight (fb : fbuilder) (hello : list Z) (bs us : list Z) : res (list (list wframe) * list Z * list Z) :=
+  match fb with
+  | FBFrames dgs => wss <- flight_frames dgs false hello ;; Ok (wss, bs, us)
+  | FBRandom dgs => rff_build dgs false hello bs us
+  end.
+
+(* planInitialFlight on a fully queued ClientHello: BuildFlight with the budgets of flightBudgets
+   (C10; logged input here), then validateInitialFlight.  Ok = p.flightPayloads;
+   Err c: a BuildFlight error class, or 100 + the class of validateInitialFlight.
+   An empty stream plans nothing. *)
+Definition plan_flight (fb : fbuilder) (hello : list Z) (budgets : list Z) (bs us : list Z)
+  : res (list (list wframe) * list Z * list Z) :=
+  if zlen hello =? 0 then Ok ([], bs, us)
+  else
+    '(wss, bs', us') <- build_flight fb hello bs us ;;
+    let v := validate (map encode wss) budgets (zlen hello) in
+    if v =? 0 then Ok (wss, bs', us')
+    else if v =? -1 then Panic
+    else Err (100 + v).
+
+(* what goes on the wire for the planned flight: packPlannedInitial sends the payloads in order;
+   a rejected plan (PackCoalescedPacket returns the error) sends nothing, and nothing is left
+   queued to be sent later (PopAllCryptoData emptied the stream) *)
+Definition flight_sent (fb : fbuilder) (hello : list Z) (budgets : list Z) (bs us : list Z) : list (list wframe) :=
+  match plan_flight fb hello budgets bs us with
+  | Ok (wss, _, _) => wss
+  | _ => []
+  end.
